@@ -1,6 +1,7 @@
 package main
 
 import (
+	"go/token"
 	"fmt"
 	"strings"
 
@@ -51,6 +52,37 @@ func runC14(c *Ctx) {
 		}
 		if strings.HasSuffix(ef.Fact, " > 0") && strings.Contains(ef.Fact, ".Timeout") {
 			toAtom = strings.TrimSuffix(ef.Fact, " > 0")
+		}
+	}
+	// the branching may sit in helpers of setState: the agency is then the argument that carries StateMap[s].Agency,
+	// the role is the helper's receiver's config.Role, and the timeout is whatever time.Duration is compared with 0
+	for _, ci := range allCalls(setState) {
+		h := samePkgHelper(setState, ci.Common())
+		if h == nil {
+			continue
+		}
+		for _, a := range ci.Common().Args {
+			if d := desc(a); agencyAtom == "" && strings.HasSuffix(d, ".Agency") {
+				agencyAtom = d
+			}
+		}
+		if roleAtom == "" && len(ci.Common().Args) > 0 {
+			for _, ef := range edgeFacts(h) {
+				if strings.HasPrefix(ef.Fact, "p0.config.Role == ") {
+					roleAtom = desc(ci.Common().Args[0]) + ".config.Role"
+				}
+			}
+		}
+	}
+	if toAtom == "" {
+		for _, b := range setState.Blocks {
+			iff, ok := b.Instrs[len(b.Instrs)-1].(*ssa.If)
+			if !ok {
+				continue
+			}
+			if bo, ok := iff.Cond.(*ssa.BinOp); ok && bo.Op == token.GTR && desc(bo.Y) == "0" && typeStr(bo.X.Type()) == "time.Duration" {
+				toAtom = desc(bo.X)
+			}
 		}
 	}
 	// the one-shot flag: a bool allocated in stateLoop, bound into setState, stored true in stateLoop after the first setState call
@@ -150,6 +182,26 @@ func runC14(c *Ctx) {
 	// duration: entry.Timeout or entry.TimeoutFunc() of StateMap[new state]
 	durD := desc(newTimer.Common().Args[0])
 	okDur := strings.Contains(durD, ".Timeout") && strings.Contains(durD, ".TimeoutFunc()")
+	if call, isCall := newTimer.Common().Args[0].(*ssa.Call); isCall && !okDur {
+		// entry.effectiveTimeout(): a helper on the entry that yields TimeoutFunc() if set, else Timeout
+		if h := samePkgHelper(setState, &call.Call); h != nil {
+			var rs []string
+			for _, hb := range h.Blocks {
+				if hr, ok := hb.Instrs[len(hb.Instrs)-1].(*ssa.Return); ok && len(hr.Results) == 1 {
+					rs = append(rs, desc(hr.Results[0]))
+				}
+			}
+			j := strings.Join(rs, " | ")
+			nilGuard := false
+			for _, ef := range edgeFacts(h) {
+				if strings.HasSuffix(ef.Fact, ".TimeoutFunc == nil") || strings.HasSuffix(ef.Fact, ".TimeoutFunc != nil") {
+					nilGuard = true
+				}
+			}
+			okDur = len(rs) == 2 && strings.Contains(j, ".Timeout") && strings.Contains(j, ".TimeoutFunc()") && nilGuard
+			durD = "helper " + h.Name() + " returning " + j
+		}
+	}
 	okSrc := false
 	for _, b := range setState.Blocks {
 		for _, in := range b.Instrs {
